@@ -369,6 +369,13 @@ def tasks_for(tier):
             for sp in splits:
                 tasks.append(('split %s clk(%d) vs %s' % (dname, n, '+'.join(map(str, sp))), split_task,
                               {'build': build, 'n': n, 'split': sp}))
+    # memories keep their state outside wires: "pre-edge values" includes the stored words (a read returns the content
+    # before a same-cycle write, on either port) - the C09 reference machines of the memory blocks are run here as well
+    from . import c09
+    from .seq import seq_task
+    for name, cfg in c09.cfgs(tier):
+        if 'Memory' in name:
+            tasks.append(('memory reads pre-edge content: %s' % name, seq_task, cfg))
     return tasks, uncovered
 
 
